@@ -146,7 +146,10 @@ class ListS(Sort):
     def fresh(self, name):
         n = z3.Int(fresh_name(name + '.len'))
         a = z3.Const(fresh_name(name + '.arr'), z3.ArraySort(z3.IntSort(), self.elem.z3()))
-        return VList(n, a, self.elem)
+        v = VList(n, a, self.elem)
+        if getattr(self, 'bytes', False):
+            v.is_bytes = True
+        return v
     def empty(self):
         return VList(z3.IntVal(0), z3.Const(fresh_name('emptyarr'),
                                             z3.ArraySort(z3.IntSort(), self.elem.z3())), self.elem)
